@@ -581,6 +581,151 @@ example :
     getLifecycle (lifecyclesOf [.version 1 vb!"v1" [], .configure 1 [.sunset (3, [], [])], .configure 1 [.deprecatedSince, .sunset (7, [], [])]])
         vb!"v1" = some { deprecated := true, sunset := some (7, [], []), migration := [] } := by decide
 
+/-- the object registered last for a version -/
+def lastRegistered (s : LSt) (v : Bytes) : Option Nat := (s.engine.reverse.find? (fun p => p.1 == v)).map (·.2)
+
+/-- what object `id` holds -/
+def heldBy (s : LSt) (id : Nat) : Option LC := (s.vrs.lookup id).bind (·.2)
+
+/-- every `r.Version(…)` statement of the script creates an object under a new id -/
+def freshIds : List LOp → List Nat → Bool
+  | [], _ => true
+  | .version id _ _ :: rest, seen => !seen.contains id && freshIds rest (id :: seen)
+  | .configure _ _ :: rest, seen => freshIds rest seen
+
+/-- every registered object exists and holds a configuration -/
+def Registered (s : LSt) : Prop := ∀ p ∈ s.engine, ∃ ver lc, s.vrs.lookup p.2 = some (ver, some lc)
+
+theorem lemma_lookup_cons_ne {β} (id id' : Nat) (b : β) (l : List (Nat × β)) (h : id' ≠ id) :
+    ((id, b) :: l).lookup id' = l.lookup id' := by
+  simp [List.lookup, beq_eq_false_iff_ne.2 h]
+
+theorem lemma_registered_step (s : LSt) (op : LOp) (h : Registered s)
+    (hfresh : ∀ id ver opts, op = .version id ver opts → s.vrs.lookup id = none) : Registered (s.step op) := by
+  cases op with
+  | version id ver opts =>
+    have hnone := hfresh id ver opts rfl
+    by_cases ho : opts = []
+    · subst ho
+      intro p hp
+      simp only [LSt.step, if_true] at hp ⊢
+      obtain ⟨v, lc, hlc⟩ := h p hp
+      have hid : p.2 ≠ id := by intro e; rw [e, hnone] at hlc; cases hlc
+      exact ⟨v, lc, by rw [lemma_lookup_cons_ne _ _ _ _ hid]; exact hlc⟩
+    · intro p hp
+      simp only [LSt.step, ho, if_false, List.mem_append, List.mem_singleton] at hp ⊢
+      rcases hp with hp | rfl
+      · obtain ⟨v, lc, hlc⟩ := h p hp
+        have hid : p.2 ≠ id := by intro e; rw [e, hnone] at hlc; cases hlc
+        exact ⟨v, lc, by rw [lemma_lookup_cons_ne _ _ _ _ hid]; exact hlc⟩
+      · exact ⟨ver, opts.foldl applyLOpt LC.zero, by simp [List.lookup]⟩
+  | configure id opts =>
+    by_cases ho : opts = []
+    · subst ho; simpa [LSt.step] using h
+    · cases hv : s.vrs.lookup id with
+      | none => simpa [LSt.step, ho, hv] using h
+      | some vl =>
+        obtain ⟨ver, lc0⟩ := vl
+        intro p hp
+        simp only [LSt.step, ho, hv, if_false, List.mem_append, List.mem_singleton] at hp ⊢
+        rcases hp with hp | rfl
+        · obtain ⟨v, lc, hlc⟩ := h p hp
+          by_cases hid : p.2 = id
+          · exact ⟨ver, opts.foldl applyLOpt (lc0.getD LC.zero), by rw [hid]; simp [List.lookup]⟩
+          · exact ⟨v, lc, by rw [lemma_lookup_cons_ne _ _ _ _ hid]; exact hlc⟩
+        · exact ⟨ver, opts.foldl applyLOpt (lc0.getD LC.zero), by simp [List.lookup]⟩
+
+/-- ids seen so far cover the objects that exist -/
+theorem lemma_registered_run (ops : List LOp) (s : LSt) (seen : List Nat) (h : Registered s)
+    (hseen : ∀ id, s.vrs.lookup id ≠ none → id ∈ seen) (hf : freshIds ops seen = true) :
+    Registered (ops.foldl LSt.step s) := by
+  induction ops generalizing s seen with
+  | nil => exact h
+  | cons op rest ih =>
+    rw [List.foldl_cons]
+    cases op with
+    | version id ver opts =>
+      simp only [freshIds, Bool.and_eq_true, Bool.not_eq_true', List.contains_eq_mem, decide_eq_false_iff_not] at hf
+      have hnone : s.vrs.lookup id = none := by
+        cases hl : s.vrs.lookup id with
+        | none => rfl
+        | some x => exact absurd (hseen id (by rw [hl]; simp)) hf.1
+      refine ih _ (id :: seen) (lemma_registered_step s _ h ?_) ?_ hf.2
+      · intro id' ver' opts' he; cases he; exact hnone
+      · intro id' hne
+        by_cases hid : id' = id
+        · subst hid; simp
+        · have : s.vrs.lookup id' ≠ none := by
+            by_cases ho : opts = []
+            · subst ho
+              simpa [LSt.step, lemma_lookup_cons_ne _ _ _ _ hid] using hne
+            · simpa [LSt.step, ho, lemma_lookup_cons_ne _ _ _ _ hid] using hne
+          exact List.mem_cons_of_mem _ (hseen id' this)
+    | configure id opts =>
+      simp only [freshIds] at hf
+      refine ih _ seen (lemma_registered_step s _ h ?_) ?_ hf
+      · intro id' ver' opts' he; cases he
+      · intro id' hne
+        apply hseen id'
+        by_cases ho : opts = []
+        · subst ho; simpa [LSt.step] using hne
+        · cases hv : s.vrs.lookup id with
+          | none => simpa [LSt.step, ho, hv] using hne
+          | some vl =>
+            by_cases hid : id' = id
+            · subst hid; rw [hv]; simp
+            · simpa [LSt.step, ho, hv, lemma_lookup_cons_ne _ _ _ _ hid] using hne
+
+theorem lemma_find_filterMap_all {α β} (l : List α) (f : α → Option β) (g : α → β) (p : β → Bool)
+    (h : ∀ a ∈ l, f a = some (g a)) : (l.filterMap f).reverse.find? p = (l.reverse.find? (fun a => p (g a))).map g := by
+  have : l.filterMap f = l.map g := by
+    induction l with
+    | nil => rfl
+    | cons a rest ih =>
+      rw [List.filterMap_cons, h a (by simp)]
+      simp only [List.map_cons]
+      rw [ih (fun b hb => h b (by simp [hb]))]
+  rw [this, ← List.map_reverse, List.find?_map]
+  rfl
+
+/-- **the lifecycle a version is served with is the one held — at serving time — by the object that was registered
+    LAST for it** (`r.Version(v, opts…)` with options, or `Configure` on any object of that version), for every script
+    whose `Version` statements create fresh objects -/
+theorem lifecycle_last_registration_wins (ops : List LOp) (v : Bytes) (hf : freshIds ops [] = true) :
+    let s := ops.foldl LSt.step { vrs := [], engine := [] }
+    getLifecycle (lifecyclesOf ops) v = (lastRegistered s v).bind (heldBy s) := by
+  intro s
+  have hreg : Registered s :=
+    lemma_registered_run ops { vrs := [], engine := [] } [] (by intro p hp; cases hp) (by intro id h; simp [List.lookup] at h) hf
+  have hl : lifecyclesOf ops = s.engine.filterMap (fun p : Bytes × Nat => match s.vrs.lookup p.2 with
+      | some (_, some lc) => some (p.1, lc)
+      | _ => Option.none) := rfl
+  unfold getLifecycle lastRegistered heldBy
+  rw [hl]
+  have key := lemma_find_filterMap_all s.engine
+    (fun p : Bytes × Nat => match s.vrs.lookup p.2 with
+      | some (_, some lc) => some (p.1, lc)
+      | _ => Option.none)
+    (fun p => (p.1, ((s.vrs.lookup p.2).bind (·.2)).getD LC.zero)) (fun q : Bytes × LC => q.1 == v)
+    (by
+      intro p hp
+      obtain ⟨ver, lc, hlc⟩ := hreg p hp
+      simp [hlc])
+  rw [key]
+  cases hfind : s.engine.reverse.find? (fun a => a.1 == v) with
+  | none => simp
+  | some p =>
+    have hp : p ∈ s.engine := by
+      have := List.mem_of_find?_eq_some hfind
+      simpa using this
+    obtain ⟨ver, lc, hlc⟩ := hreg p hp
+    simp [hlc]
+
+/-- not vacuous: the script of the `example` above has fresh ids, and its last registration for `v1` is the OLD object -/
+example : freshIds [.version 1 vb!"v1" [.migration vb!"old"], .version 2 vb!"v1" [.deprecated], .configure 1 [.successor]] [] = true ∧
+    lastRegistered ([LOp.version 1 vb!"v1" [.migration vb!"old"], .version 2 vb!"v1" [.deprecated], .configure 1 [.successor]].foldl
+      LSt.step { vrs := [], engine := [] }) vb!"v1" = some 1 := by decide
+
 /-! ### the handler chain of a version-group route (app layer) -/
 
 section Chain
